@@ -330,7 +330,8 @@ impl fmt::Display for BoardBuilder {
 
         write!(f, " ")?;
         if let Some(sq) = self.get_en_passant() {
-            write!(f, "{}", sq)?;
+            // FEN wants the square the pawn passed over, not the square it stands on
+            write!(f, "{}", sq.ubackward(!self.side_to_move))?;
         } else {
             write!(f, "-")?;
         }
